@@ -72,6 +72,17 @@ claim('C13', 'DESIGN.md 4/C13',
       'space-flag pairs; conformance by replay of every edge.',
       'Bounded depth; exact instances rank 2, length 1-2; other shapes through the reference interpreter; result space flag not judged.')
 
+claim('C06', 'DESIGN.md 4/C06',
+      'TLA+ spec PostProc.tla (flag / representation / content of the three stored arrays; calculate variants, user transforms, '
+      're-solve) model-checked with TLC; all label sequences to depth 3 (4 thorough) and random depth-12 sequences replayed on real '
+      'solved 2- and 3-component PRISM objects with the projected state selecting the successor in the TLC graph; calculate/solve '
+      'traces of the repository tests and drivers validated against Trace_PostProc.tla',
+      'TLC checks ContentsPristine, FlagTruthful, NoSpaceError, ResultDependsOnlyOnContents, SolveLeavesRoot on the (nondeterministic) '
+      'specification; conformance compares, after every real call, the stored arrays with the pristine content in the flagged space and '
+      'the return value with that of a fresh identically solved object.',
+      'Two concrete solved systems (rank 2, 3; 256-point dyadic grid); tolerances 1e-9 (arrays) / 1e-8 (returns); post-call flags not '
+      'prescribed; trusted: TLC, NondetWalker, deepcopy-as-fresh-object, the object\'s own Domain for moving references between spaces.')
+
 ALL = ['C%02d' % i for i in range(1, 19)]
 
 
